@@ -2,7 +2,7 @@
 accumulation, every table cell defined before it is read)."""
 import ast
 from ..front import dotted, const_value, unparse, walk_no_nested, parent_map
-from ..core import holds, violation, unrecognised, Result, HOLDS
+from ..core import holds, violation, unrecognised, named, Result, HOLDS
 
 ID = "C11"
 ANCHORS = 'tools.fimo.logaddexp2,tools.fimo._pwm_to_mapping'.split(",")
@@ -166,7 +166,7 @@ def dp_complete_rule(fi):
     skips = [n for n in l.body if isinstance(n, ast.If) and any(isinstance(x, (ast.Continue, ast.Break, ast.Return)) for x in ast.walk(n))]
     skips += [n for n in l.body if isinstance(n, (ast.Continue, ast.Break))]
     if skips:
-        return [violation("DP", fi, role, "`%s` lets a column leave the distribution untouched although it shifts every attainable score by the column's value "
+        return [named("DP", fi, role, "`%s` lets a column leave the distribution untouched although it shifts every attainable score by the column's value "
                           "(only a column of zeros is neutral)" % unparse(skips[0]).split("\n")[0][:70], skips[0])]
     stages = [type(s).__name__ for s in l.body]
     if stages != ["For", "For", "For"]:
